@@ -14,7 +14,7 @@ x {no Origin, Origin, Origin + Access-Control-Request-Method/-Headers} x {no Ran
 Oracle: HEAD = GET's status and header multiset modulo the timestamp value (hence the same Content-Length, Content-Type, Content-Range), empty body; OPTIONS = 2xx, empty body and, when the request carries Origin, \
 the preflight grants M-CORS predicts for the active (default allow-all) configuration: Allow-Origin = Origin, Allow-Credentials true, Allow-Methods / Allow-Headers echo the requested ones. \
 A fifth header variant per path carries two headers drawn (by the path) from G-REQ's vocabulary of request, client-hint, conditional and response header names. A quarter of the trees are served by the real release binary over loopback (class served-by-the-real-binary). Non-trivial = path served through the static-file controller (not '/'); distinct by (tree, path, method, header variant, entry); counted per request triple.",
-        &["the form demo endpoints are not pages and stay outside this check", "CORS grants are judged for the default configuration here; C11 varies the configuration; a third of the in-process trees run under a restricted configuration (switch off, listed origins / methods / headers) where HEAD = GET is still demanded header for header"],
+        &["the form demo endpoints are not pages and stay outside this check", "CORS grants are judged for the default configuration here; C11 varies the configuration; a third of the in-process trees run under a restricted configuration (switch off, listed origins / methods / headers) where HEAD = GET is still demanded header for header and OPTIONS from a listed origin must carry the configured origin / methods / headers / max-age grants"],
         if tier == Tier::Quick { 900 } else { 14400 },
     )
 }
@@ -27,7 +27,9 @@ pub struct Case { pub tree: TreeSpec,
     #[serde(default)] pub cors: Option<CorsCfg> }
 
 #[derive(Clone, Debug, Serialize, Deserialize)]
-pub struct CorsCfg { pub origins: Vec<String>, pub methods: Vec<String>, pub headers: Vec<String>, pub credentials: bool }
+pub struct CorsCfg { pub origins: Vec<String>, pub methods: Vec<String>, pub headers: Vec<String>,
+    /// None: the setting is left empty (neither true nor false)
+    pub credentials: Option<bool> }
 
 fn set_cors_env(c: &Option<CorsCfg>) {
     crate::fw::inproc::init_env();
@@ -37,7 +39,7 @@ fn set_cors_env(c: &Option<CorsCfg>) {
         std::env::set_var("RWS_CONFIG_CORS_ALLOW_METHODS", k.methods.join(","));
         std::env::set_var("RWS_CONFIG_CORS_ALLOW_HEADERS", k.headers.join(","));
         std::env::set_var("RWS_CONFIG_CORS_EXPOSE_HEADERS", "content-type");
-        std::env::set_var("RWS_CONFIG_CORS_ALLOW_CREDENTIALS", k.credentials.to_string());
+        std::env::set_var("RWS_CONFIG_CORS_ALLOW_CREDENTIALS", k.credentials.map(|b| b.to_string()).unwrap_or_default());
         std::env::set_var("RWS_CONFIG_CORS_MAX_AGE", "600");
     }
 }
@@ -114,7 +116,17 @@ pub fn check_tree(ctx: &Ctx, c: &Case, count: bool) -> Verdict {
                 if !o.body.is_empty() { problems.push(("options-response-has-body".into(), format!("OPTIONS {} carries {} body bytes", tag, o.body.len()))); break 'outer; }
                 if restricted { *classes.entry("restricted-cors-configuration").or_insert(0) += 1; }
                 // the grants themselves are judged for the default configuration only (C11 varies the configuration and judges them against M-CORS)
-                if restricted { continue; }
+                if restricted {
+                    // a listed origin must get the configured preflight grants (M-CORS as in C11: the lists as configured, joined by commas)
+                    let k = c.cors.as_ref().unwrap();
+                    if (*vname == "origin" || vname.starts_with("preflight")) && k.origins.iter().any(|o| o == "https://app.example") {
+                        let want: [(&str, String); 4] = [("Access-Control-Allow-Origin", "https://app.example".to_string()), ("Access-Control-Allow-Methods", k.methods.join(",")), ("Access-Control-Allow-Headers", k.headers.join(",")), ("Access-Control-Max-Age", "600".to_string())];
+                        for (name, value) in want.iter() {
+                            if o.get(name).map(|v| v.to_lowercase()) != Some(value.to_lowercase()) { problems.push(("options-without-configured-preflight-grant".into(), format!("OPTIONS {} under {:?}: {} is {:?} where {:?} is configured", tag, k, name, o.get(name), value))); break 'outer; }
+                        }
+                    }
+                    continue;
+                }
                 if *vname == "origin" || vname.starts_with("preflight") {
                     if o.get("Access-Control-Allow-Origin") != Some("https://app.example") { problems.push(("options-without-allow-origin-grant".into(), format!("OPTIONS {}: Access-Control-Allow-Origin {:?}", tag, o.get("Access-Control-Allow-Origin")))); break 'outer; }
                     if o.get("Access-Control-Allow-Credentials") != Some("true") { problems.push(("options-without-credentials-grant".into(), format!("OPTIONS {}", tag))); break 'outer; }
@@ -154,7 +166,7 @@ pub fn run(ctx: &Ctx) {
     *ctx.auto_sample.borrow_mut() = false;
     let strat = { use proptest::prelude::*; let sub = |pool: Vec<&'static str>| proptest::collection::vec(prop::sample::select(pool), 0..4).prop_map(|v| { let mut out: Vec<String> = vec![]; for s in v { if !out.contains(&s.to_string()) { out.push(s.to_string()); } } out });
         let cors = (prop_oneof![4 => Just(vec!["https://app.example".to_string()]), 2 => Just(vec!["https://other.example".to_string(), "https://app.example".to_string()]), 1 => Just(vec!["https://other.example".to_string()]), 1 => Just(vec![])],
-            sub(vec!["GET", "POST", "PUT", "HEAD", "OPTIONS", "DELETE"]), sub(vec!["content-type", "x-custom", "authorization"]), any::<bool>()).prop_map(|(origins, methods, headers, credentials)| CorsCfg { origins, methods, headers, credentials });
+            sub(vec!["GET", "POST", "PUT", "HEAD", "OPTIONS", "DELETE"]), sub(vec!["content-type", "x-custom", "authorization"]), proptest::option::weighted(0.7, any::<bool>())).prop_map(|(origins, methods, headers, credentials)| CorsCfg { origins, methods, headers, credentials });
         (tree_strategy(false), proptest::bool::weighted(0.25), proptest::option::weighted(0.35, cors)).prop_map(|(tree, binary, cors)| Case { tree, binary, cors }) };
     ctx.prop("trees", ctx.share(ctx.scale(48, 2000)), strat, |c| check_tree(ctx, c, !*ctx.shrinking.borrow()));
 }
